@@ -1,7 +1,7 @@
 (* C14 — Hit-object lines decode per the legacy grammar.
    Only statements, each closed by [exact] of a lemma from Proofs/, followed
    by Print Assumptions; pins of the constants the property text names; and
-   Examples (non-vacuity, the dropped residue of a rejected slider, the spinner-bit witness).
+   Examples (non-vacuity, the dropped residue of a rejected slider, the repaired spinner-bit input).
 
    Model: Model/HitObjectLine.v (parse_hit_objects), Model/PathString.v
    (convert_path_str, convert_points with its index loops), Model/HitSamples.v.
@@ -56,7 +56,8 @@ Print Assumptions C14_no_panic.
    the precedence circle > slider > spinner > hold of the type bits;
    [last_object] becomes the type without combo bits; per kind ([kind_ok]):
    position = the parsed, truncated one; new combo = flag, or first object,
-   or after a type with the spinner bit; combo offset only with the flag;
+   or after a line read as a spinner ([starts_combo]; by the kind of the last
+   object produced: C14_new_combo_by_kind below); combo offset only with the flag;
    slider: repeats <= cap, stored repeats = max 0 (raw - 1), repeats + 2 node
    sample sets, length None or >= eps (> 0), control points = path_spec (whatever
    curve_points held before is dropped); spinner / hold duration >= 0. *)
@@ -131,38 +132,106 @@ Theorem C14_hold_duration_nonneg :
 Proof. exact hold_duration_nonneg. Qed.
 Print Assumptions C14_hold_duration_nonneg.
 
-(* ---------- "directly follows a spinner" ---------- *)
-(* The parser remembers the previous line's type bits, not the kind of the
-   object it produced.  For every reachable state the two agree unless the
-   remembered type carries the spinner bit next to the circle or slider bit
-   (class [ambiguous_last]) ... *)
-Theorem C14_follows_spinner :
-  forall st, coherent st -> ~ ambiguous_last st ->
-  last_object_was_spinner st = last_is_spinner st.
-Proof. exact follows_spinner_by_kind. Qed.
-Print Assumptions C14_follows_spinner.
-
+(* ---------- "is the first object or directly follows a spinner" ---------- *)
+(* The parser remembers the previous accepted line's type bits ([last_object])
+   and applies the kind precedence to them when it asks "was that a spinner?"
+   (spinner bit, and neither the circle nor the slider bit).  [coherent st]:
+   the remembered type names the kind of the last object in [hit_objects];
+   it holds after every sequence of lines.  [last_is_spinner] and
+   [follows_by_kind] look at the KIND of the last object produced only. *)
 Theorem C14_coherent_reachable : forall mode lines, coherent (run_lines mode lines).
 Proof. exact coherent_run. Qed.
 Print Assumptions C14_coherent_reachable.
 
-(* ... and in that class the full statement is false of the faithful model:
-   after "0,0,0,9,0" (a circle, by precedence) the state says "spinner", so the
-   next plain circle starts a new combo although it follows a circle. *)
-Theorem C14_follows_spinner_refuted :
-  exists st, coherent st /\ ambiguous_last st /\
-             last_object_was_spinner st = true /\ last_is_spinner st = false.
-Proof.
-  exists (run_lines 0 [lit "0,0,0,9,0"]). split; [apply coherent_run|]. split.
-  - exists 9. repeat split; try (vm_compute; reflexivity). left. vm_compute. reflexivity.
-  - split; vm_compute; reflexivity.
-Qed.
-Print Assumptions C14_follows_spinner_refuted.
+Theorem C14_coherent_step :
+  forall st line st' r,
+  coherent st -> parse_hit_objects st line = Done (st', r) -> coherent st'.
+Proof. exact coherent_step. Qed.
+Print Assumptions C14_coherent_step.
 
-Example spinner_bit_witness :
-  obs_combo (run_lines 0 [lit "0,0,0,9,0"; lit "0,0,0,1,0"]) = [(0, 1); (0, 1)] /\
-  obs_combo (run_lines 0 [lit "0,0,0,1,0"; lit "0,0,0,1,0"]) = [(0, 1); (0, 0)].
-Proof. split; vm_compute; reflexivity. Qed.
+(* in every such state, with no exception: the parser's test is "the last
+   object produced is a spinner", and "first object" is "no object yet" *)
+Theorem C14_follows_spinner :
+  forall st, coherent st -> last_object_was_spinner st = last_is_spinner st.
+Proof. exact follows_spinner_by_kind. Qed.
+Print Assumptions C14_follows_spinner.
+
+Theorem C14_first_object :
+  forall st, coherent st ->
+  first_object st = match ho_objects st with [] => true | _ => false end.
+Proof. exact first_object_by_objects. Qed.
+Print Assumptions C14_first_object.
+
+(* one accepted line: a circle or slider gets new_combo = true iff the line
+   carries the new-combo bit, or no object was produced before it, or the
+   object produced right before it is a spinner -- by kind, not by type bits
+   ([new_combo_of] is the flag of a circle / slider, None for the other kinds;
+   [follows_by_kind objs] = objs is empty or its last element is a KSpinner) *)
+Theorem C14_new_combo_by_kind :
+  forall st line st',
+  coherent st ->
+  parse_hit_objects st line = Done (st', Ok) ->
+  exists f obj,
+    common_spec line = Some f /\ ho_objects st' = ho_objects st ++ [obj] /\
+    forall b, new_combo_of (h_kind obj) = Some b ->
+      b = flag_bit hot_new_combo (f_type f) || follows_by_kind (ho_objects st).
+Proof. exact new_combo_by_kind. Qed.
+Print Assumptions C14_new_combo_by_kind.
+
+(* every sequence of lines: if [l] is accepted after [pre], its object [obj]
+   stands in the final object list right behind the objects that [pre]
+   produced (rejected lines of [pre] produced none, so they do not count), and
+   the same equation holds with that list *)
+Theorem C14_new_combo_in_sequence :
+  forall mode pre l post st',
+  parse_hit_objects (run_lines mode pre) l = Done (st', Ok) ->
+  exists f obj rest,
+    common_spec l = Some f /\
+    ho_objects (run_lines mode (pre ++ l :: post)) = ho_objects (run_lines mode pre) ++ obj :: rest /\
+    forall b, new_combo_of (h_kind obj) = Some b ->
+      b = flag_bit hot_new_combo (f_type f) || follows_by_kind (ho_objects (run_lines mode pre)).
+Proof. exact new_combo_in_sequence. Qed.
+Print Assumptions C14_new_combo_in_sequence.
+
+(* [follows_by_kind] says what its name says *)
+Example follows_by_kind_unfolded :
+  forall objs, follows_by_kind objs = true <->
+    objs = [] \/ exists front o s, objs = front ++ [o] /\ h_kind o = KSpinner s.
+Proof.
+  intros objs. unfold follows_by_kind. split.
+  - destruct (last_opt objs) as [o|] eqn:E.
+    + intros H. right. destruct (h_kind o) as [c|sl|s|h] eqn:Ek; try discriminate.
+      assert (Hf : exists front, objs = front ++ [o]).
+      { clear - E. revert o E. induction objs as [|a r IH]; intros o E; [discriminate|].
+        destruct r as [|b r]; [injection E as <-; exists []; reflexivity|].
+        destruct (IH o E) as [fr Hf]. exists (a :: fr). rewrite Hf. reflexivity. }
+      destruct Hf as [front Hf]. exists front, o, s. split; assumption.
+    + intros _. left. apply last_opt_none. exact E.
+  - intros [->|(front & o & s & -> & Hk)]; [reflexivity|]. rewrite last_opt_snoc, Hk. reflexivity.
+Qed.
+
+(* the former D15 input (repaired): "0,0,0,9,0" (circle + spinner bits: a
+   circle, by precedence) no longer makes the next plain circle start a new
+   combo; the same with the slider bit (10) and both (11); the spinner bit
+   alone (8) or next to the hold bit (136) IS a spinner; a rejected line in
+   between does not count.  On dumps ([obs_combo]: kind tag, new-combo flag;
+   [dump_object] / [run_c14]: the canonical dump the correspondence check compares). *)
+Definition enc_case (mode : Z) (lines : list str) : list Z :=
+  mode :: flat_map (fun l => Z.of_nat (length l) :: l) lines.
+Example spinner_bit_repaired :
+  obs_combo (run_lines 0 [lit "0,0,0,9,0"; lit "0,0,0,1,0"]) = [(0, 1); (0, 0)] /\
+  obs_combo (run_lines 0 [lit "0,0,0,1,0"; lit "0,0,0,1,0"]) = [(0, 1); (0, 0)] /\
+  (* the two objects are, field for field, those of two plain circles *)
+  map dump_object (ho_objects (run_lines 0 [lit "0,0,0,9,0"; lit "0,0,0,1,0"]))
+  = map dump_object (ho_objects (run_lines 0 [lit "0,0,0,1,0"; lit "0,0,0,1,0"])) /\
+  firstn 3 (Drv14.run_c14 (enc_case 0 [lit "0,0,0,9,0"; lit "0,0,0,1,0"])) = [0; 0; 2] /\
+  obs_combo (run_lines 0 [lit "0,0,0,10,0,L|5:5,1"; lit "0,0,10,1,0"]) = [(1, 1); (0, 0)] /\
+  obs_combo (run_lines 0 [lit "0,0,0,11,0"; lit "0,0,10,2,0,L|5:5,1"]) = [(0, 1); (1, 0)] /\
+  obs_combo (run_lines 0 [lit "0,0,0,8,0,50"; lit "0,0,60,1,0"]) = [(2, 0); (0, 1)] /\
+  obs_combo (run_lines 0 [lit "0,0,0,136,0,50"; lit "0,0,60,2,0,L|5:5,1"]) = [(2, 0); (1, 1)] /\
+  obs_combo (run_lines 0 [lit "0,0,0,9,0"; lit "0,0,5,8,0"; lit "bad"; lit "0,0,10,1,0"]) = [(0, 1); (0, 0)] /\
+  obs_combo (run_lines 0 [lit "0,0,0,8,0,50"; lit "0,0,5,9,0,x"; lit "0,0,60,1,0"]) = [(2, 0); (0, 1)].
+Proof. repeat split; vm_compute; reflexivity. Qed.
 
 (* ---------- T14b: the path string ---------- *)
 (* convert_path_str (index loops, fuel) is total and equals the structural
@@ -301,8 +370,6 @@ Print Assumptions C14_rejected_line_absent.
 
 (* the former D3 input: the rejected slider still leaves two points in the
    scratch buffer, and they no longer reach the next slider *)
-Definition enc_case (mode : Z) (lines : list str) : list Z :=
-  mode :: flat_map (fun l => Z.of_nat (length l) :: l) lines.
 Example residue_is_dropped :
   let bad := lit "1,1,0,2,0,B|100:100|L|200:0|P|x:0,1,300" in
   let good := lit "1,1,0,2,0,L|50:50,1,50" in
